@@ -55,6 +55,12 @@ _REQ = {
     "nearmiss:blank": 1000,
     "nearmiss:underscore-dot": 1000,
     "padded_valid_parts": 500,
+    "directed_signed:h": 1000,
+    "directed_signed:g": 1000,
+    "directed_signed:g#": 1000,
+    "directed_signed:#": 1000,
+    "reject_ok:negative-value": 300,
+    "clause:lenient_value_preserved": 500,
     "style_arrangements": 1957,
     "reach:display.common._parse_color_256": 1000,
     "reach:display.common._parse_color_88": 1000,
@@ -91,9 +97,12 @@ ASSUMES = [
     "reference reader of the documented language: colour tokens are exactly ''/default, the 16 names, h<0..255 decimal "
     "without leading zeros> (<=87 at depth 88), #<3 hex>, #<6 hex>, g<0..100>, g#<2 hex>; hex digits in either case; "
     "foreground = comma separated parts, blanks/tabs around parts ignored; background = one colour token",
-    "strings that only Python int() leniency makes readable (sign, inner blanks, underscores, leading zeros, 0x, non-ASCII "
-    "digits, 'g#f', empty part next to a colour) are in a grey zone: accepting or rejecting with AttrSpecError are both "
-    "fine, any other exception is a violation, and if accepted the generic clauses (round trip, hash, idempotence) apply",
+    "strings that only Python int() leniency makes readable AND whose value under int() lies inside the documented range "
+    "of their form (h+5, h-0, h 5, h1_0, leading zeros, 0x, non-ASCII decimal digits, 'g#f'; also an empty part next to a "
+    "colour) are in a grey zone; a negative or out-of-range value (h-5, g-3, g#-f, #-12) or a string int() cannot read "
+    "is never a colour and must be rejected.  Grey zone: accepting or rejecting with AttrSpecError are both "
+    "fine, any other exception is a violation, and if accepted the generic clauses (round trip, hash, idempotence) apply and the "
+    "object must equal the one built from the canonical spelling of that value",
     "#rgb digit d denotes component 17*d (doc: '#fcc' = 100%/80%/80%); g<n> denotes 255*n/100 and, since the library "
     "rounds that to 8 bits first, an entry within 1.0 of the minimal distance is accepted; g#xx and #rrggbb are exact",
     "'nearest entry of the palette': #rgb / #rrggbb degrade per component to the nearest cube level, gray forms to the "
@@ -142,7 +151,9 @@ def classify_color(tok: str):
                 return ("h" if pre == "h" else "gpct", n)
             return ("junk", f"{pre}-out-of-range")
         if all(c in DECD for c in rest):
-            return ("lenient", f"{pre}-noncanonical-decimal")
+            if int(rest) > FORM_MAX[pre]:
+                return ("junk", f"{pre}-out-of-range")
+            return ("lenient", f"{pre}-noncanonical-decimal", int(rest))
     elif pre == "#":
         if all(c in HEXD for c in rest):
             if len(rest) == 3:
@@ -154,12 +165,43 @@ def classify_color(tok: str):
         if len(rest) == 2:
             return ("ghex", int(rest, 16))
         if len(rest) == 1:
-            return ("lenient", "g#-one-digit")
+            return ("lenient", "g#-one-digit", int(rest, 16))
         return ("junk", "g#-wrong-length-hex")
     # int() tolerates any Unicode blank around digits and reads decimal digits of any script: grey zone, not junk
     if all((c in LENIENT) or (not c.isascii() and (c.isdigit() or c.isspace())) for c in rest):
-        return ("lenient", f"{pre}-int()-syntax")
+        # Only VALUE-PRESERVING leniency is grey: the string must denote, under Python's own int() reading, a number
+        # inside the documented range of its form (h0-255, g0-100, g#00-ff, hex digits).  A negative or out-of-range
+        # value, or something int() cannot read at all, is never a colour and must be rejected.
+        try:
+            v = int(rest, 10 if pre in ("h", "g") else 16)
+        except ValueError:
+            return ("junk", f"{pre}-not-a-number")
+        if v < 0:
+            return ("junk", f"{pre}-negative")
+        if v > FORM_MAX[pre]:
+            return ("junk", f"{pre}-out-of-range")
+        return ("lenient", f"{pre}-int()-syntax", v)
     return ("junk", f"{pre}-nondigit")
+
+
+FORM_MAX = {"h": 255, "g": 100, "g#": 0xFF, "#": 0xFFFFFF}
+
+
+def canonical_of_lenient(tok: str, c):
+    """the canonical spelling of a grey-zone token's value (None where the digit count is ambiguous)"""
+    pre = "g#" if tok.startswith("g#") else tok[0]
+    v = c[2]
+    if pre == "h":
+        return f"h{v}"
+    if pre == "g":
+        return f"g{v}"
+    if pre == "g#":
+        return f"g#{v:02x}"
+    if len(tok) == 4 and v <= 0xFFF:
+        return f"#{v:03x}"
+    if len(tok) == 7:
+        return f"#{v:06x}"
+    return None
 
 
 def parse_fg(s: str):
@@ -383,6 +425,8 @@ def judge(fg: str, bg: str, depth: int, C: Counter | None = None, level: int = 0
         elif expect == "reject":
             w = why.split(":")
             cnt("reject_ok:" + (w[1] if w[0] in ("fg", "bg") else w[0]))
+            if why.endswith("-negative"):
+                cnt("reject_ok:negative-value")
             cnt(f"reject_ok_depth:{depth if depth in DEPTHS else 'invalid'}")
         else:
             cnt("lenient_rejected")
@@ -401,6 +445,23 @@ def judge(fg: str, bg: str, depth: int, C: Counter | None = None, level: int = 0
         return out
     if expect == "either":
         cnt("lenient_accepted")
+        # an accepted grey-zone token must mean exactly what its canonical spelling means
+        for side, tok, other in (("fg", fg.strip(), bg), ("bg", bg, fg)):
+            c = classify_color(tok) if "," not in tok else ("x",)
+            if c[0] != "lenient" or other not in ("", "default"):
+                continue
+            canon = canonical_of_lenient(tok, c)
+            if canon is None:
+                continue
+            cnt("clause:lenient_value_preserved")
+            pre = "g#" if tok.startswith("g#") else tok[0]
+            try:
+                ref = AttrSpec(canon, "", depth) if side == "fg" else AttrSpec("", canon, depth)
+            except AttrSpecError:
+                bad(f"C18|lenient|accepted-but-canonical-spelling-rejected|token={pre}|depth={depth}", f"{tok!r} accepted, {canon!r} rejected")
+                continue
+            if ref != a:
+                bad(f"C18|lenient|value-not-preserved|token={pre}|depth={depth}", f"{tok!r} is not the same specification as {canon!r}")
 
     # ---- observers must not raise
     obs = {}
@@ -994,6 +1055,24 @@ def run(ctx):
             ctx.count(f"nearmiss:{cls}", 2)
         evaluate(ctx, f"bold, {t} ,underline", "", DEPTHS[1 + idx // ctx.nshards % 4])
     ctx.extra["nearmiss_tokens"] = nm
+    # directed: {sign} x {every numeric form} x {every depth} x {fg, bg}; a negative value is never a colour,
+    # '+' / '-0' are value-preserving grey zone
+    signed = {"h": ["0", "5", "12", "87", "255"], "g": ["0", "3", "50", "100"], "g#": ["0", "1", "7", "f", "ff", "c8"],
+              "#": ["0", "1", "f", "12", "ff", "123", "fff", "12345", "123456"]}
+    for pre, bodies in signed.items():
+        for body in bodies:
+            for sign in ("-", "+", "\u2212", "\uff0d", "\uff0b"):
+                for t in (pre + sign + body, pre + body + sign, pre + " " + sign + body, pre + sign + " " + body, pre + sign + sign + body):
+                    idx += 1
+                    if not ctx.mine(idx):
+                        continue
+                    for d in DEPTHS:
+                        evaluate(ctx, t, "", d)
+                        evaluate(ctx, "", t, d)
+                        evaluate(ctx, f"underline,{t}", "", d)
+                        ctx.count(f"directed_signed:{pre}", 3)
+    if ctx.shard == 2 % ctx.nshards:
+        ctx.sample({"fg": "g#-f", "bg": "h-5", "depth": 88})
     # the valid base tokens as blank-padded foreground parts (documented: 'yellow, underline, bold'), every depth
     for base in NEARMISS_BASES:
         for lpad, rpad in ((" ", ""), ("", "  "), ("\t", " "), ("  ", "\t")):
